@@ -167,7 +167,7 @@ def _mixed_job(job):
 
 # ------------------------------------------------------------------------------------------------------------
 def run(ctx):
-    ex = ThreadPoolExecutor(6)
+    ex = ThreadPoolExecutor(8)
     try:
         _run(ctx, ex)
     finally:
@@ -183,10 +183,10 @@ def _run(ctx, ex):
         ("mc/asyncbuf-d3", cfg("asyncbuf", 3), None, 4),
         ("mc/async-d4", cfg("async", 4), None, 4),
         ("mc/live-async-d2", cfg("async", 2, k=K_LIVE), None, 4),
-        # the model meets a tighter bound than K; K'=4 <= K implies the K clause and keeps the graph small
-        ("mc/live-asyncbuf-d3", cfg("asyncbuf", 3, k=K_LIVE if th else 4), None, 4),
+        # the model meets a tighter bound than K (3 edges); K'=3 <= K implies the K clause and keeps the graph small
+        ("mc/live-asyncbuf-d3", cfg("asyncbuf", 3, k=K_LIVE if th else 3), None, 4),
         ("mc/hist-async-d2", cfg("async", 2, hist=8 if th else 6), None, 2),
-        ("mc/hist-asyncbuf-d3", cfg("asyncbuf", 3, hist=5 if th else 4), None, 4),
+        ("mc/hist-asyncbuf-d3", cfg("asyncbuf", 3, hist=5 if th else 3), None, 4),
         ("mc/mutant-full-binary-style", cfg("async", 2, mutant="full_binary_style"), "ObsAllowed", 1),
         ("mc/mutant-sync-bypassed", cfg("async", 2, mutant="sync_bypassed_r"), "ObsAllowed", 1),
         ("mc/mutant-gray-lag", cfg("async", 2, mutant="gray_lag"), "ObsAllowed", 1),
@@ -195,7 +195,7 @@ def _run(ctx, ex):
     ]
     if th:
         jobs += [
-            ("mc/asyncbuf-d5", cfg("asyncbuf", 5), None, 6),
+            ("mc/asyncbuf-d5", cfg("asyncbuf", 5), None, 8),
             ("mc/live-async-d4", cfg("async", 4, k=K_LIVE), None, 4),
             ("mc/hist-async-d4", cfg("async", 4, hist=6), None, 4),
             # write-domain reset (AsyncFIFO only; documented there): data clauses under an explicit environment
@@ -207,11 +207,27 @@ def _run(ctx, ex):
     def one(j):
         stage, c, expect, workers = j
         return ctx.tlc("FifoAsyncImpl", stage=stage, cfg_text=c, workers=workers, expect_violation=expect,
-                       count=expect is None, args=("-coverage", "1") if expect is None else (), timeout=3000)
+                       count=expect is None, args=("-coverage", "1") if expect is None else (), timeout=9000)
 
+    # model graphs for the tours, dumped first because everything on the main path waits for them.
+    # (variant, depth, data): depth 2 with data {0,1}; the larger graphs with one data value (every control
+    # state and edge; data paths are covered by depth 2 and by the random walks with wide data)
+    tour_specs = [("async", 2, "{0, 1}"), ("asyncbuf", 3, "{0}")]
+    if th:
+        tour_specs.append(("async", 4, "{0}"))
+
+    def dump(spec):
+        variant, d, data = spec
+        stage = "tours/graph-%s-d%d" % (variant, d)
+        dot = os.path.join(ctx.tmp, "g_%s_%d" % (variant, d))
+        r = ctx.tlc("FifoAsyncImpl", stage=stage, count=False, workers=4, cfg_text=cfg(variant, d, data=data),
+                    args=("-dump", "dot,actionlabels", dot))
+        return ("graph", dot + ".dot", variant, d, r.distinct, r.generated)
+    dump_futures = [ex.submit(dump, spec) for spec in tour_specs]
+    r0_future = ex.submit(one, jobs[0])
     mc_futures = [ex.submit(one, j) for j in jobs if j[0] != "mc/async-d2"]
     # the first run also prints the documented depth table; needed right away by the sweep
-    r0 = one(jobs[0])
+    r0 = r0_future.result()
     table = None
     for txt in r0.printed():
         if txt.startswith('<< "DEPTHS"') or txt.startswith('<<"DEPTHS"'):
@@ -270,21 +286,7 @@ def _run(ctx, ex):
     # ---------------- tours (spec -> code) and random clock-ratio walks (code -> spec) ------------------------
     from .. import fifo_drive
     traces, meta = [], []
-    # (variant, depth, data): depth 2 with data {0,1}; the larger graphs with one data value (every control
-    # state and edge; data paths are covered by depth 2 and by the random walks with wide data)
-    tour_specs = [("async", 2, "{0, 1}"), ("asyncbuf", 3, "{0}")]
-    if th:
-        tour_specs.append(("async", 4, "{0}"))
-
-    def dump(spec):
-        variant, d, data = spec
-        stage = "tours/graph-%s-d%d" % (variant, d)
-        dot = os.path.join(ctx.tmp, "g_%s_%d" % (variant, d))
-        r = ctx.tlc("FifoAsyncImpl", stage=stage, count=False, workers=4, cfg_text=cfg(variant, d, data=data),
-                    args=("-dump", "dot,actionlabels", dot))
-        return ("graph", dot + ".dot", variant, d, r.distinct, r.generated)
-    with ThreadPoolExecutor(3) as ex2:
-        gjobs = list(ex2.map(dump, tour_specs))
+    gjobs = [f.result() for f in dump_futures]
 
     rjobs = []
     n_events = 1000 if th else 400
